@@ -1,5 +1,6 @@
 SPECIFICATION GenSpec
 CONSTANTS
+  ReorgMarked = TRUE
   N = 3
   D = 3
   Gaps = FALSE
